@@ -7,6 +7,7 @@ from sa.rules import traversal as T
 from sa.rules import ranges as RG
 from sa.rules import nameconv_rules as NC
 from sa.rules import cpp_rules as CC
+from sa.rules import cpprange as CRX
 
 
 def main(tier):
@@ -40,6 +41,8 @@ def main(tier):
     chk.run("R-INTRANGE", RG.intrange, r, parts=('backend',), floor=4)
     chk.run("R-CHARSTREAM", B.charstream, cx.templates, floor=1)
     chk.run("R-ENUMUNIQUE", B.enumunique, cx.repo, floor=2)
+    # "enum fields accept any in-range value": the three conjuncts of EnumView::CouldWriteValue, folded with C++ semantics
+    chk.run("R-CPPRANGE", CRX.cpprange, cx.cpp, parts=("enum",), floor=300)
     # `[(cpp) $default enum_case]` is scoped by the defaults table the back end's traversal carries
     chk.run("R-INCIDENTAL-PURE", T.incidental_pure, cx.repo, cx.schema, cx.sites, site_modules=("back_end/cpp/header_generator.py",), floor=1)
     return chk.finish()
